@@ -141,6 +141,44 @@ def mutate(rnd, d):
     return kind, d
 
 
+
+def cli_schedule(group_file, platform, slow, not_c, renaming, removed):
+    """the schedule the command line builds (cvise.py --list-passes) on the given platform: {category: [printed pass]}"""
+    import subprocess
+    child = os.path.join(os.path.dirname(os.path.dirname(os.path.abspath(__file__))), 'vlib', 'cli_child.py')
+    repo = os.environ.get('VERIF_REPO', '/repo')
+    args = ['/venv/bin/python', child, platform, '--list-passes', '--no-timing', '--pass-group-file', group_file]
+    if slow:
+        args.append('--sllooww')
+    if not_c:
+        args.append('--not-c')
+    if renaming:
+        args.append('--renaming')
+    if removed:
+        args += ['--remove-pass', ','.join(removed)]
+    r = subprocess.run(args + ['x.c'], capture_output=True, text=True, env=dict(os.environ, PYTHONPATH=repo, VERIF_REPO=repo), timeout=120)
+    if r.returncode != 0:
+        return None, (r.stdout + r.stderr)[-600:]
+    cats, cur = {}, None
+    heads = {'INITIAL PASSES': 'first', 'MAIN PASSES': 'main', 'CLEANUP PASSES': 'last'}
+    for line in r.stderr.split('\n'):
+        if not line.startswith('INFO '):
+            continue
+        t = line[5:].strip()
+        if t in heads:
+            cur = heads[t]
+            cats[cur] = []
+        elif cur is not None:
+            cats[cur].append(t)
+    return cats, None
+
+
+def printed(table, e):
+    nm, arg, maxt = e
+    s = table[nm] + ('::' + arg if arg is not None else '')
+    return s + (f' ({maxt} T)' if maxt is not None else '')
+
+
 def explore(ctx):
     from cvise.cvise import CVise
     rnd = random.Random(ctx.seed + 13)
@@ -187,6 +225,32 @@ def explore(ctx):
         kind, d = mutate(rnd, base)
         options, not_c, renaming = rnd.choice(combos)
         one('mutated', d, options, rnd.choice(removes), not_c, renaming, kind)
+    # the command line itself: which options are active is decided there (windows from the platform, slow from --sllooww)
+    import tempfile
+    cli = list(itertools.product(['linux', 'win32'], [False, True]))
+    for name, d in list(shipped.items()) + [('excl-both.json', {'first': [{'pass': 'blank', 'exclude': ['windows']}, {'pass': 'comments', 'include': ['windows']},
+                                                                           {'pass': 'includes', 'include': ['slow'], 'exclude': ['windows']}],
+                                                                 'main': [{'pass': 'lines', 'arg': '0', 'include': ['slow', 'windows']}], 'last': []})]:
+        with tempfile.NamedTemporaryFile('w', suffix='.json', dir=ctx.tmp, delete=False) as f:
+            json.dump(d, f)
+        for platform, slow in cli:
+            not_c, renaming = (rnd.random() < 0.5, rnd.random() < 0.5) if name in ('all.json', 'opencl-120.json') else (False, True)
+            removed = rnd.choice(removes[:4])
+            options = (['slow'] if slow else []) + (['windows'] if platform == 'win32' else [])
+            got, err = cli_schedule(f.name, platform, slow, not_c, renaming, removed)
+            ref = reference(d, options, removed, not_c, renaming, table, valid)
+            ctx.evaluations += 1
+            ctx.count(f'command-line:{platform}:slow={slow}')
+            rep = {'kind': 'cli', 'group': d, 'platform': platform, 'slow': slow, 'not_c': not_c, 'renaming': renaming, 'removed': removed}
+            if got is None:
+                ctx.violation('wellformed-rejected', f'cvise.py --list-passes on {name} ({platform}, sllooww={slow}) failed: {err}', rep)
+                continue
+            want = {c: [printed(table, e) for e in ref[1][c]] for c in ('first', 'main', 'last')}
+            if got != want:
+                diff = {c: (got.get(c), want[c]) for c in want if got.get(c) != want[c]}
+                ctx.violation('wrong-selection', f'command line on {name}, platform {platform}, --sllooww={slow}, not_c={not_c}, renaming={renaming}, removed={removed}: '
+                              f'lists {str(diff)[:500]} (listed, expected for options {options})', rep)
+            ctx.nontriv(('cli', name, platform, slow))
     ctx.sample({'options': ['slow'], 'impl_output_prefix': cases[3][1][:30]})
     bad = coq.corr_eval('c13', ['From CV Require Import Config.PassGroup Config.PassGroupCorr.', 'From Coq Require Import String.', 'Open Scope string_scope.'],
                         'run_parse', cases, shard=40)
@@ -202,6 +266,18 @@ def replay(ctx, payload):
     r = payload['replay']
     table = {k: v.__name__ for k, v in CVise.pass_name_mapping.items()}
     valid = [o.value for o in AbstractPass.Option]
+    if r.get('kind') == 'cli':
+        import tempfile
+        with tempfile.NamedTemporaryFile('w', suffix='.json', dir=ctx.tmp, delete=False) as f:
+            json.dump(r['group'], f)
+        options = (['slow'] if r['slow'] else []) + (['windows'] if r['platform'] == 'win32' else [])
+        got, err = cli_schedule(f.name, r['platform'], r['slow'], r['not_c'], r['renaming'], r['removed'])
+        ref = reference(r['group'], options, r['removed'], r['not_c'], r['renaming'], table, valid)
+        want = {c: [printed(table, e) for e in ref[1][c]] for c in ('first', 'main', 'last')}
+        print('replay: listed', str(got)[:300], 'expected', str(want)[:300])
+        if got != want:
+            ctx.violation('wrong-selection', 'replayed', r)
+        return
     out, obs = run_real(r['group'], r['options'], r['removed'], r['not_c'], r['renaming'])
     ref = reference(r['group'], r['options'], r['removed'], r['not_c'], r['renaming'], table, valid)
     print('replay: impl', str(obs)[:400], 'expected', str(ref)[:400])
